@@ -350,3 +350,141 @@ class StdinCtxI(Interface):
     """a ContextManager[ProcessExecutionFile] (made by as_stdin / file_ctx_managers): gives the file to use
     as a std stream of a process; does not swallow exceptions"""
     methods = {'__enter__': Method(returns=Any_), '__exit__': Method(returns=Const(None))}
+
+
+# ============================================================================== accumulation through program symbols
+# DESIGN C10 `accumulation`.  Elements (stdin string sources, argument list elements, transformers, validators)
+# are opaque objects that the code only copies; a ghost identity token `ident` stands for "which object":
+# `same(x, y)` is object identity (nothing on the path can make an element, so a result element with the ident
+# of an input element IS that element -- the inputs range over all assignments of idents, injective ones included).
+
+from pyvc.values import SList
+from pyvc import seqs as _seqs
+from exactly_lib.type_val_deps.types.program.sdv.accumulated_components import AccumulatedComponents
+from exactly_lib.type_val_deps.types.program.sdv.arguments import ArgumentsSdv
+from exactly_lib.type_val_deps.types.program.sdv.command import CommandSdv
+from exactly_lib.type_val_deps.types.list_.list_sdv import ListSdv
+from exactly_lib.type_val_deps.types.list_ import list_sdvs
+from exactly_lib.impls.types.program.sdvs.command_program_sdv import ProgramSdvForCommand
+from exactly_lib.impls.types.program.sdvs.program_symbol_sdv import ProgramSdvForSymbolReference
+from exactly_lib.impls.types.program.sdvs import program_symbol_sdv
+from exactly_lib.type_val_deps.types.program.sdv.program import ProgramSdv
+from exactly_lib.type_val_deps.types.program.ddv.program import ProgramDdv
+
+P_ACC = 'exactly_lib.type_val_deps.types.program.sdv.accumulated_components'
+P_ARGS = 'exactly_lib.type_val_deps.types.program.sdv.arguments'
+P_LIST_SDVS = 'exactly_lib.type_val_deps.types.list_.list_sdvs'
+
+
+class ResolvedI(Interface):
+    """what an element resolves to (a ddv): keeps the identity token of the element it came from"""
+    attrs = {'ident': Int, 'validator': Any_}
+
+
+class ElementI(Interface):
+    """an element of an accumulated list (StringSourceSdv, ElementSdv, StringTransformerSdv, validator resolver)"""
+    attrs = {'ident': Int, 'references': Any_}
+    methods = {'resolve': Method(returns=Iface(ResolvedI), ensures=lambda self, symbols, result: result.ident == self.ident)}
+
+
+ELEMENTS = ListOf(Iface(ElementI))
+
+
+def same(x, y):
+    return x.ident == y.ident
+
+
+def is_concat(zs, xs, ys, j):
+    """zs == xs ++ ys  (for the arbitrary fixed index j: the j-th of xs is the j-th of zs, the j-th of ys is the
+    (len(xs)+j)-th of zs; lengths add)"""
+    return len(zs) == len(xs) + len(ys) \
+        and ((not (0 <= j < len(xs))) or same(zs[j], xs[j])) \
+        and ((not (0 <= j < len(ys))) or same(zs[len(xs) + j], ys[j]))
+
+
+def is_same_seq(zs, xs, j):
+    return len(zs) == len(xs) and ((not (0 <= j < len(xs))) or same(zs[j], xs[j]))
+
+
+def is_empty_seq(zs):
+    return len(zs) == 0
+
+
+LIST_SDV = Inst(ListSdv, _elements=ELEMENTS)
+ARGUMENTS_SDV = Inst(ArgumentsSdv, _arguments=LIST_SDV, _validators=ELEMENTS)
+ACCUMULATED = Inst(AccumulatedComponents, stdin=ELEMENTS, arguments=ARGUMENTS_SDV, transformations=ELEMENTS)
+
+
+def arg_elements(arguments_sdv):
+    return arguments_sdv._arguments._elements
+
+
+def acc_is_concat(r, a, b, j):
+    """r = a (+) b : stdin, arguments (and their validators) and transformations of b appended to those of a"""
+    return type(r) is AccumulatedComponents \
+        and is_concat(r.stdin, a.stdin, b.stdin, j) \
+        and is_concat(arg_elements(r.arguments), arg_elements(a.arguments), arg_elements(b.arguments), j) \
+        and is_concat(r.arguments._validators, a.arguments._validators, b.arguments._validators, j) \
+        and is_concat(r.transformations, a.transformations, b.transformations, j)
+
+
+M.contract(P_LIST_SDVS + ':concat', inline=True,
+           params=dict(lists=FixedList(LIST_SDV, LIST_SDV)), ghosts=dict(j=Int),
+           ensures={'elements of the first list, then those of the second': lambda lists, result, j:
+           type(result) is ListSdv and is_concat(result._elements, lists[0]._elements, lists[1]._elements, j)},
+           raises_only=())
+
+M.contract(P_ARGS + ':ArgumentsSdv.new_accumulated', inline=True,
+           params=dict(self=ARGUMENTS_SDV, arguments_sdv=ARGUMENTS_SDV), ghosts=dict(j=Int),
+           ensures={'own arguments (and validators) first, then the additional ones': lambda self, arguments_sdv, result, j:
+           type(result) is ArgumentsSdv
+           and is_concat(arg_elements(result), arg_elements(self), arg_elements(arguments_sdv), j)
+           and is_concat(result._validators, self._validators, arguments_sdv._validators, j)},
+           raises_only=())
+
+M.contract(P_ARGS + ':ArgumentsSdv.empty', inline=True, params=dict(),
+           ensures={'no arguments': lambda result: is_empty_seq(arg_elements(result)) and is_empty_seq(result._validators)},
+           raises_only=())
+
+M.contract(P_ACC + ':AccumulatedComponents.new_accumulated', inline=True,
+           params=dict(self=ACCUMULATED, additional=ACCUMULATED), ghosts=dict(j=Int),
+           ensures={'append order: own stdin / arguments / transformations first, then the additional ones':
+                    lambda self, additional, result, j: acc_is_concat(result, self, additional, j)},
+           raises_only=())
+
+M.contract(P_ACC + ':AccumulatedComponents.empty', inline=True, params=dict(),
+           ensures={'nothing': lambda result: is_empty_seq(result.stdin) and is_empty_seq(arg_elements(result.arguments))
+                                              and is_empty_seq(result.transformations)}, raises_only=())
+
+M.contract(P_ACC + ':AccumulatedComponents.of_arguments', inline=True, params=dict(arguments=ARGUMENTS_SDV),
+           ensures={'only the arguments': lambda arguments, result:
+           result.arguments is arguments and is_empty_seq(result.stdin) and is_empty_seq(result.transformations)},
+           raises_only=())
+
+M.contract(P_ACC + ':AccumulatedComponents.of_stdin', inline=True, params=dict(stdin=ELEMENTS),
+           ensures={'only the stdin': lambda stdin, result:
+           result.stdin is stdin and is_empty_seq(arg_elements(result.arguments))
+           and is_empty_seq(result.transformations)}, raises_only=())
+
+M.contract(P_ACC + ':AccumulatedComponents.of_transformations', inline=True, params=dict(transformations=ELEMENTS),
+           ensures={'only the transformations': lambda transformations, result:
+           result.transformations is transformations and is_empty_seq(arg_elements(result.arguments))
+           and is_empty_seq(result.stdin)}, raises_only=())
+
+M.contract(P_ACC + ':AccumulatedComponents.of_transformation', inline=True, params=dict(transformation=Iface(ElementI)),
+           ensures={'only the one transformation': lambda transformation, result:
+           len(result.transformations) == 1 and result.transformations[0] is transformation
+           and is_empty_seq(arg_elements(result.arguments)) and is_empty_seq(result.stdin)}, raises_only=())
+
+
+def is_resolution_of(rs, xs, j):
+    """rs = [x.resolve(symbols) for x in xs]: same length, the j-th is the resolution of the j-th"""
+    return len(rs) == len(xs) and ((not (0 <= j < len(xs))) or rs[j].ident == xs[j].ident)
+
+
+for _m, _field in (('resolve_stdin', 'stdin'), ('resolve_transformations', 'transformations')):
+    M.contract('%s:AccumulatedComponents.%s' % (P_ACC, _m), inline=True,
+               params=dict(self=ACCUMULATED, symbols=Any_), ghosts=dict(j=Int, field=Const(_field)),
+               ensures={'element-wise, in order': lambda self, field, result, j:
+               is_resolution_of(result, getattr(self, field), j)},
+               raises_only=())
